@@ -29,4 +29,8 @@ def _patterns_C08(rep, spec, verbose=False, only=None):
     from . import patterns
     return patterns.run_c08(rep, spec, verbose=verbose, only=only)
 
-EXTRA = {'C06': _patterns_C06, 'C08': _patterns_C08}
+def _sites_C17(rep, spec, verbose=False, only=None):
+    from . import sites, props
+    return sites.run_sites(rep, spec, props, verbose=verbose, only=only)
+
+EXTRA = {'C06': _patterns_C06, 'C08': _patterns_C08, 'C17': _sites_C17}
